@@ -194,3 +194,8 @@ pub mod pool {
 pub mod channel {
     pub use crate::channel::verif_channel::*;
 }
+
+/// Façade over the task set of broadcast futures (V1).
+pub mod task_set {
+    pub use crate::util::task_set::verif_task_set::*;
+}
